@@ -265,13 +265,10 @@ where
         // ParallelSum, since we only rearrange additions, and field addition is associative.
         let res = inp
             .par_chunks(self.serial_sum.inner.arity())
-            .fold(
+            .try_fold(
                 || ParallelSumFoldState::new(&self.serial_sum.inner, outp.len()),
                 |mut state, chunk| {
-                    state
-                        .inner
-                        .eval_poly(&mut state.partial_output, chunk)
-                        .unwrap();
+                    state.inner.eval_poly(&mut state.partial_output, chunk)?;
                     for (sum_elem, output_elem) in state
                         .partial_sum
                         .iter_mut()
@@ -279,11 +276,11 @@ where
                     {
                         *sum_elem += *output_elem;
                     }
-                    state
+                    Ok::<_, FlpError>(state)
                 },
             )
-            .map(|state| state.partial_sum)
-            .reduce(|| vec![F::zero(); outp.len()], add_vector);
+            .map(|state| state.map(|state| state.partial_sum))
+            .try_reduce(|| vec![F::zero(); outp.len()], |a, b| Ok(add_vector(a, b)))?;
 
         outp.copy_from_slice(&res[..]);
         Ok(())
